@@ -99,6 +99,8 @@ func runOne(ctx context.Context, s solverSpec, script string, wantModel bool, ti
 	first := strings.TrimSpace(strings.SplitN(text, "\n", 2)[0])
 	r := Result{Solver: s.name, Time: el, Output: text}
 	switch {
+	case strings.HasPrefix(first, "(error"):
+		r.Status = "error"
 	case first == "unsat":
 		r.Status = "unsat"
 	case first == "sat":
@@ -152,12 +154,12 @@ func Solve(script string, timeout time.Duration) Result {
 			x.Tried = tried
 			return x
 		}
-		if x.Status != "error" {
+		if x.Status != "error" || last.Status == "error" {
 			last = x
 		}
 	}
 	last.Tried = tried
-	if last.Status == "error" || last.Status == "" {
+	if last.Status == "" {
 		last.Status = "unknown"
 	}
 	return last
